@@ -1,10 +1,14 @@
 """C03: admissible rearrangements; caller data untouched -- wrapper over harness/all_rand.py (scripted-tape runs of the unstratified and stratified tests and helpers)."""
 from .. import all_rand as AR
-from ..all_rand import COQ_HEADER, run, to_coq, extra_terms, nontrivial, key, cases, SKIPPED
+from ..all_rand import COQ_HEADER, run, to_coq, extra_terms, nontrivial, key, SKIPPED
 
-RULE = ('all scripted runs of the unstratified and stratified tests and of permute / permute_within_groups / permute_rows: every argument received by a recording statistic and every helper output is checked to be an admissible rearrangement (pooled multiset and group sizes, signs only, labels, within stratum / row); caller arrays (int, float, object dtypes) compared bytewise around every call; non-trivial = non-constant data with more than one group/stratum; distinct by full input')
+RULE = ('all scripted runs of the unstratified and stratified tests and of permute / permute_within_groups / permute_rows: every argument received by a recording statistic and every helper output is checked to be an admissible rearrangement (pooled multiset and group sizes, signs only, labels, within stratum / row); caller arrays (int, float, object dtypes) compared bytewise around every call; Experiment histories (in_place=False must leave the Experiment bit-identical, labels conserved within strata) and permute_incidence_fixed_sums inputs (several dtypes and layouts); non-trivial = non-constant data with more than one group/stratum; distinct by full input')
 ASSUMPTIONS = [
     "the generator is driven through a scripted subclass of cryptorandom.SHA256 (harness/tape.py): requests are answered lazily and logged; the same answers are replayed for the keep_dist twin",
     "data are exactly representable (small integers times group-size products times powers of two, optional large offsets), so named float statistics are exact; 't'-type statistics are black boxes checked through dist",
     "SHA-256 / Mersenne-Twister output is assumed uniform; condition.argsort() is an oracle input of the model"]
-oracle = AR.filtered_oracle(['input-modified', 'inadmissible', 'group-sizes', 'observed-not-data', 'double-eval'])
+oracle = AR.filtered_oracle(['input-modified', 'inadmissible', 'group-sizes', 'observed-not-data', 'double-eval', 'in-place-false-mutates', 'in-place', 'labels-not-conserved', 'strata-violated', 'response-changed', 'shape', 'margins'])
+
+
+def cases(tier, rng, dist):
+    return AR.cases(tier, rng, dist, extra=('exp', 'pifs'))
